@@ -99,8 +99,51 @@ def _dump(obj):
 # --------------------------------------------------------------------------- child / worker
 
 
+SUBCASE_CODE = ("import sys; sys.modules['orjson'] = None; sys.path.insert(0, sys.argv[1]); "
+                "from vf import runner; runner._subcase(sys.argv[2], sys.argv[3])")
+
+
+def _subcase(modname, spec_json):
+    """Entry point of a fresh interpreter for one case (see _run_in_subprocess)."""
+    import importlib
+    if REPO not in sys.path[:1]:
+        sys.path.insert(0, REPO)  # the tree under test, exactly as main() arranges it
+    mod = importlib.import_module(modname)
+    spec = json.loads(spec_json)
+    try:
+        res = mod.run_case(spec) or {}
+    except BaseException:
+        res = {"evals": 1, "violations": [{"msg": "unexpected exception while executing the case", "mech": None, "detail": traceback.format_exc()[-4000:]}]}
+    sys.stdout.flush()
+    os.write(1, b"\n@@VF-RESULT@@" + _dump(res).encode("utf-8") + b"\n")
+    os._exit(0)
+
+
+def _run_in_subprocess(mod, spec, timeout):
+    """A case that needs a differently configured interpreter (spec["interpreter"] == "no_orjson": the orjson package is made
+    unimportable before eliot is imported, so eliot falls back to the standard library's json as it does on PyPy): a fresh python
+    process instead of a fork."""
+    import subprocess
+    here = os.path.dirname(os.path.dirname(os.path.abspath(__file__)))
+    try:
+        p = subprocess.run([sys.executable, "-X", "faulthandler", "-c", SUBCASE_CODE, here, mod.__name__, json.dumps(spec)],
+                           capture_output=True, timeout=timeout, start_new_session=True)
+    except subprocess.TimeoutExpired:
+        return {"inconclusive": "watchdog: case exceeded %ss" % timeout}
+    out = p.stdout
+    k = out.rfind(b"@@VF-RESULT@@")
+    if k < 0:
+        return {"inconclusive": "child died without a result (exit status %d): %s" % (p.returncode, p.stderr.decode("utf-8", "replace")[-300:])}
+    try:
+        return json.loads(out[k + len(b"@@VF-RESULT@@"):].decode("utf-8"))
+    except Exception as e:
+        return {"inconclusive": "unreadable child result: %r" % (e,)}
+
+
 def _run_in_child(mod, spec, timeout):
     """Fork, run mod.run_case(spec) in the child, return its result dict."""
+    if isinstance(spec, dict) and spec.get("interpreter") == "no_orjson":
+        return _run_in_subprocess(mod, spec, timeout)
     r, w = os.pipe()
     sys.stdout.flush()
     sys.stderr.flush()
